@@ -563,6 +563,108 @@ type held struct {
 	how  string
 }
 
+type simCfg struct {
+	reference bool // one deterministic arm: sorted maps, fresh encoders only, first runnable goroutine
+	mapMode   int  // 0 sorted, 1 reversed, 2 tape permutation
+	poolMode  int  // 0 newest pooled encoder first, 1 tape, 2 oldest first
+}
+
+// simulate runs the tasks as simulated goroutines inside a synctest bubble: one runnable goroutine at a time,
+// chosen from the tape (reference: the first), every pool hand-out and map iteration order decided by cfg.
+func simulate(tt *testing.T, t *sim.Tape, cfg simCfg, tasks []func(), r *sim.Run) (steps int, stuck bool) {
+	defer func() {
+		if v := recover(); v != nil {
+			if strings.Contains(fmt.Sprint(v), "deadlock") {
+				stuck = true
+				return
+			}
+			panic(v)
+		}
+	}()
+	synctest.Test(tt, func(*testing.T) {
+		s := simrt.New(t.Choose)
+		switch {
+		case cfg.reference:
+		case cfg.mapMode == 1:
+			s.MapOrder = func(n int, site string) []int {
+				pm := make([]int, n)
+				for i := range pm {
+					pm[i] = n - 1 - i
+				}
+				return pm
+			}
+		case cfg.mapMode == 2:
+			s.MapOrder = func(n int, site string) []int { return t.Perm(n, "maporder") }
+		}
+		s.PoolChoice = func(n int, site string) int {
+			if cfg.reference {
+				if n == 0 {
+					return 1 // never pooled
+				}
+				return 0 // always fresh
+			}
+			if n == 0 {
+				if t.Prob(1, 10, "pool_put_lost") {
+					return 1
+				}
+				return 0
+			}
+			switch cfg.poolMode {
+			case 0:
+				return n - 1 // newest pooled encoder, fresh only when the pool is empty
+			case 2:
+				if n > 1 {
+					return 1
+				}
+				return 0
+			}
+			return t.Choose(n, "pool_get")
+		}
+		s.Attach()
+		done := 0
+		for k, task := range tasks {
+			task := task
+			s.Spawn(fmt.Sprintf("task%d", k), fmt.Sprintf("task%d", k), nil, func() {
+				defer func() { done++ }()
+				task()
+			})
+		}
+		for steps = 0; steps < 400000 && done < len(tasks); steps++ {
+			s.Quiesce()
+			run := s.Runnable()
+			if len(run) == 0 {
+				if done >= len(tasks) {
+					break
+				}
+				if !s.Idle(time.Second) {
+					stuck = true
+					break
+				}
+				continue
+			}
+			if cfg.reference {
+				s.Release(run[0])
+			} else {
+				s.Release(run[t.Choose(len(run), "who")])
+			}
+		}
+		s.Quiesce()
+		if r != nil {
+			r.Count("probe:pool_encoder_reused", s.PoolReused)
+			r.Count("probe:pool_encoder_fresh", s.PoolFresh)
+			r.Count("fault:pool_put_lost", s.PoolLost)
+			r.Count("fault:schedule_decisions", int64(steps))
+			r.Count("probe:lock_contended", s.LockWaits)
+		}
+		if s.Live() == 0 {
+			s.Detach()
+		} else {
+			stuck = true
+		}
+	})
+	return steps, stuck
+}
+
 func runOne(tt *testing.T, r *sim.Run) {
 	t := r.T
 	g := &gen{t: t, hsm: types.HashSegmentMap{}}
@@ -604,31 +706,37 @@ func runOne(tt *testing.T, r *sim.Run) {
 		vals = append(vals, val)
 	}
 
-	// ---- reference encodings: private fresh encoder, sorted map order, no pool, one goroutine
-	ref := simrt.New(t.Choose)
-	ref.Attach()
-	for _, val := range vals {
-		if val.msg != nil {
-			b, err := val.msg.MarshalBinary()
+	// ---- reference encodings: private fresh encoder, sorted map order, nothing pooled is ever reused, one task,
+	// first-runnable schedule (the state serialiser's own goroutines are simulated goroutines too)
+	fail := func(class, sig, format string, a ...any) {
+		r.Violate(prop, class, sig, format, a...)
+	}
+	_, refStuck := simulate(tt, t, simCfg{reference: true}, []func(){func() {
+		for _, val := range vals {
+			if val.msg != nil {
+				b, err := val.msg.MarshalBinary()
+				if err != nil {
+					val.refErr = err.Error()
+				}
+				val.msgRef = b
+				continue
+			}
+			b, err := encodeWith(types.NewEncoder(), val, g.hsm)
 			if err != nil {
 				val.refErr = err.Error()
 			}
-			val.msgRef = b
-			continue
-		}
-		b, err := encodeWith(types.NewEncoder(), val, g.hsm)
-		if err != nil {
-			val.refErr = err.Error()
-		}
-		val.ref = b
-		if val.state != nil && err == nil {
-			kvs, err := merklization.StateEncoder(*val.state)
-			if err == nil {
-				val.stateKV = kvLines(kvs)
+			val.ref = b
+			if val.state != nil && err == nil {
+				kvs, err := merklization.StateEncoder(*val.state)
+				if err == nil {
+					val.stateKV = kvLines(kvs)
+				}
 			}
 		}
+	}}, nil)
+	if refStuck {
+		panic("h6: the reference run (one task, nothing pooled) did not finish")
 	}
-	ref.Detach()
 	for _, val := range vals {
 		if val.refErr != "" {
 			// the generator produced something the codec refuses: not a statement about the codec
@@ -650,101 +758,25 @@ func runOne(tt *testing.T, r *sim.Run) {
 		}
 	}
 	var helds []*held
-	fail := func(class, sig, format string, a ...any) {
-		r.Violate(prop, class, sig, format, a...)
-	}
-	steps := 0
-	stuck := false
-	func() {
-		defer func() {
-			if v := recover(); v != nil {
-				msg := fmt.Sprint(v)
-				if strings.Contains(msg, "deadlock") {
-					stuck = true
-					return
+	var tasks []func()
+	for k := 0; k < nTasks; k++ {
+		k := k
+		tasks = append(tasks, func() {
+			defer func() {
+				if v := recover(); v != nil {
+					if strings.Contains(fmt.Sprint(v), "h6:") {
+						panic(v)
+					}
+					fail("panic", "codec-panicked", "task %d: the codec panicked: %v", k, v)
 				}
-				panic(v)
-			}
-		}()
-		synctest.Test(tt, func(*testing.T) {
-			s := simrt.New(t.Choose)
-			switch mapMode {
-			case 1:
-				s.MapOrder = func(n int, site string) []int {
-					pm := make([]int, n)
-					for i := range pm {
-						pm[i] = n - 1 - i
-					}
-					return pm
-				}
-			case 2:
-				s.MapOrder = func(n int, site string) []int { return t.Perm(n, "maporder") }
-			}
-			s.PoolChoice = func(n int, site string) int {
-				if n == 0 {
-					if t.Prob(1, 10, "pool_put_lost") {
-						return 1
-					}
-					return 0
-				}
-				switch poolMode {
-				case 0:
-					return n - 1 // newest pooled encoder, fresh only when the pool is empty
-				case 2:
-					if n > 1 {
-						return 1
-					}
-					return 0
-				}
-				return t.Choose(n, "pool_get")
-			}
-			s.Attach()
-			done := 0
-			for k := 0; k < nTasks; k++ {
-				k := k
-				s.Spawn(fmt.Sprintf("task%d", k), fmt.Sprintf("task%d", k), nil, func() {
-					defer func() {
-						if v := recover(); v != nil {
-							if strings.Contains(fmt.Sprint(v), "h6:") {
-								panic(v)
-							}
-							fail("panic", "codec-panicked", "task %d: the codec panicked: %v", k, v)
-						}
-						done++
-					}()
-					for i, o := range plans[k] {
-						simrt.Yield("h6:step")
-						doOp(r, g, vals[o.val], o.kind, k, i, &helds, fail)
-					}
-				})
-			}
-			for steps = 0; steps < 400000 && done < nTasks; steps++ {
-				s.Quiesce()
-				run := s.Runnable()
-				if len(run) == 0 {
-					if done >= nTasks {
-						break
-					}
-					if !s.Idle(time.Second) {
-						stuck = true
-						break
-					}
-					continue
-				}
-				s.Release(run[t.Choose(len(run), "who")])
-			}
-			s.Quiesce()
-			r.Count("probe:pool_encoder_reused", s.PoolReused)
-			r.Count("probe:pool_encoder_fresh", s.PoolFresh)
-			r.Count("fault:pool_put_lost", s.PoolLost)
-			r.Count("fault:schedule_decisions", int64(steps))
-			if s.Live() == 0 {
-				s.Detach()
-			} else {
-				stuck = true
+			}()
+			for i, o := range plans[k] {
+				simrt.Yield("h6:step")
+				doOp(r, g, vals[o.val], o.kind, k, i, &helds, fail)
 			}
 		})
-	}()
+	}
+	steps, stuck := simulate(tt, t, simCfg{mapMode: mapMode, poolMode: poolMode}, tasks, r)
 	if stuck {
 		fail("stuck", "tasks-do-not-finish", "the codec tasks did not finish under this schedule (%d decisions)", steps)
 		return
